@@ -1349,6 +1349,10 @@ func (p *Parser) parseArrayLiteral() (array ArrayExpr) {
 			prevComma = true
 			p.next()
 		} else {
+			if !prevComma {
+				p.fail("array literal", CommaToken, CloseBracketToken)
+				return
+			}
 			spread := p.tt == EllipsisToken
 			if spread {
 				p.next()
